@@ -120,8 +120,19 @@ func specStep(s specState, e cEvent) (specState, bool) {
 			delete(n, e.op.g)
 		}
 		return n, true
-	case "like":
+	case "like", "mkindex":
 		return s, true
+	case "incr": // read-modify-write of document 0 of batch g: v := v + 1 (absent document: UpdateById reports an error)
+		if e.res.err {
+			return s, true // rejected (write conflict) or no such document: no effect
+		}
+		v, has := s[e.op.g][0]
+		if !has {
+			return s, false
+		}
+		n := s.clone()
+		n[e.op.g][0] = v + 1
+		return n, true
 	case "get": // FindById of document 0 of batch g: absent (count 0) or present with value v (count 1)
 		if e.res.err {
 			return s, true // reported separately
@@ -189,7 +200,11 @@ func runConcStream(seed int64, n int, out, backendSpec string) *RunReport {
 	stats := map[string]int{}
 	var samples []interface{}
 	for round := 0; round < n; round++ {
-		for _, be := range backendsOf(backendSpec) {
+		bes := backendsOf(backendSpec)
+		if round%3 == 0 && (backendSpec == "" || backendSpec == "all") {
+			bes = append(bes, "badgeropen")
+		}
+		for _, be := range bes {
 			g := NewGen(seed*313 + int64(round))
 			env, err := newEnv(be)
 			if err != nil {
@@ -218,9 +233,17 @@ func runConcStream(seed int64, n int, out, backendSpec string) *RunReport {
 			plans := make([][]cOp, nclients)
 			for c := 0; c < nclients; c++ {
 				for j := 0; j < opsPer; j++ {
-					switch g.Intn(7) {
+					switch g.Intn(9) {
 					case 6:
 						plans[c] = append(plans[c], cOp{kind: "get", g: 1 + g.Intn(int(nextG)+1)})
+					case 7:
+						plans[c] = append(plans[c], cOp{kind: "incr", g: 1 + g.Intn(int(nextG)+1)})
+					case 8:
+						if g.Chance(0.35) {
+							plans[c] = append(plans[c], cOp{kind: "mkindex", g: g.Intn(3)})
+						} else {
+							plans[c] = append(plans[c], cOp{kind: "incr", g: 1 + g.Intn(int(nextG)+1)})
+						}
 					case 0, 1:
 						plans[c] = append(plans[c], cOp{kind: "insert", g: int(atomic.AddInt32(&nextG, 1)), n: 2 + g.Intn(5)})
 					case 2:
@@ -239,6 +262,14 @@ func runConcStream(seed int64, n int, out, backendSpec string) *RunReport {
 						} else {
 							plans[c] = append(plans[c], cOp{kind: "read"})
 						}
+					}
+				}
+			}
+			incrTargets := map[int]bool{}
+			for _, pl := range plans {
+				for _, op := range pl {
+					if op.kind == "incr" {
+						incrTargets[op.g] = true
 					}
 				}
 			}
@@ -267,6 +298,16 @@ func runConcStream(seed int64, n int, out, backendSpec string) *RunReport {
 							ev.res.err = db.DeleteById("c", concId(op.g, 0)) != nil
 						case "del":
 							ev.res.err = db.Delete(query.NewQuery("c").Where(query.Field("g").Eq(op.g))) != nil
+						case "incr":
+							ev.res.err = db.UpdateById("c", concId(op.g, 0), func(doc *d.Document) *d.Document {
+								cp := doc.Copy()
+								v, _ := doc.Get("v").(int64)
+								cp.Set("v", v+1)
+								return cp
+							}) != nil
+						case "mkindex":
+							// an index created while writers are active must still cover every document
+							ev.res.err = db.CreateIndex("c", []string{"k", "v", "tag"}[op.g]) != nil
 						case "get":
 							doc, err := db.FindById("c", concId(op.g, 0))
 							ev.res.err = err != nil
@@ -306,9 +347,10 @@ func runConcStream(seed int64, n int, out, backendSpec string) *RunReport {
 								perG[int(gi)][int(vi)] = true
 							}
 							ev.res.docs = st.render()
-							// direct atomicity invariant: a reader never sees a batch half-updated
-							for _, vs := range perG {
-								if len(vs) > 1 {
+							// direct atomicity invariant: a reader never sees a batch half-updated (batches whose document 0
+							// is incremented on its own are exempt)
+							for gi, vs := range perG {
+								if len(vs) > 1 && !incrTargets[gi] {
 									atomic.StoreInt32(&partial, 1)
 								}
 							}
@@ -380,6 +422,22 @@ func runConcStream(seed int64, n int, out, backendSpec string) *RunReport {
 			cnt, _ := db.Count(query.NewQuery("c"))
 			if cnt != len(final) {
 				f.failf("after the concurrent run Count=%d but FindAll returns %d on %s", cnt, len(final), be)
+			}
+			if idxs, err := db.ListIndexes("c"); err == nil {
+				for _, ix := range idxs {
+					via, err := db.FindAll(query.NewQuery("c").Sort(query.SortOption{Field: ix.Field, Direction: 1}))
+					if err != nil || len(via) != len(final) {
+						f.failf("after the concurrent run the index on %q serves %d of the %d documents on %s (err %v)", ix.Field, len(via), len(final), be, err)
+					}
+					ids := map[string]bool{}
+					for _, doc := range via {
+						if ids[doc.ObjectId()] {
+							f.failf("after the concurrent run the index on %q returns document %s twice on %s", ix.Field, doc.ObjectId(), be)
+							break
+						}
+						ids[doc.ObjectId()] = true
+					}
+				}
 			}
 			if len(samples) < 3 {
 				samples = append(samples, map[string]interface{}{"backend": be, "clients": nclients, "operations": len(events), "rejected_by_store": nerr})
